@@ -77,7 +77,7 @@ mutual
 end
 
 /-- Finding class: two different integers that `as f64` maps to the same float. -/
-def D_eq_lossy (a b : Int) : Bool := decide (a ≠ b) && (F64.ofInt a == F64.ofInt b)
+def D_eq_lossy (a b : Int) : Bool := decide (a ≠ b) && F64.eq (F64.ofInt a) (F64.ofInt b)
 
 def isContainer : Value → Bool
   | .arr _ => true
